@@ -38,23 +38,35 @@ theorem apply_nodup (w : W) (hn : w.K.keys.Nodup) : w.apply.1.K.keys.Nodup := by
   · exact attempt_nodup _ (attempt_nodup w hn)
   · exact attempt_nodup w hn
 
-theorem ifaceEvent_nodup (w : W) (n : String) (i : Nat) (st : Option Bool) (hn : w.K.keys.Nodup) :
-    (w.ifaceEvent n i st).K.keys.Nodup := by
-  unfold W.ifaceEvent
+theorem linkChange_nodup (w : W) (n : String) (i : Nat) (st : Option Bool) (hn : w.K.keys.Nodup) :
+    (w.linkChange n i st).K.keys.Nodup := by
+  unfold W.linkChange
   dsimp only
-  have h1 : (Map.keys (if st == some true then w.K else w.K.filter (fun p => p.2.ifindex != i))).Nodup := by
+  have h0 : (Map.keys (if (w.kif.filter (fun p => p.1 != n && p.2.idx == i)).isEmpty then w.K
+      else w.K.filter (fun p => p.2.ifindex != i))).Nodup := by
     split
     · exact hn
     · exact keys_filter_nodup _ _ hn
+  generalize (if (w.kif.filter (fun p => p.1 != n && p.2.idx == i)).isEmpty then w.K
+      else w.K.filter (fun p => p.2.ifindex != i)) = K0 at h0 ⊢
+  have h1 : (Map.keys (if st == some true then K0 else K0.filter (fun p => p.2.ifindex != i))).Nodup := by
+    split
+    · exact h0
+    · exact keys_filter_nodup _ _ h0
   split
   · split
     · exact keys_filter_nodup _ _ h1
     · exact h1
   · exact h1
 
+theorem linkEvent_K (w : W) (n : String) (i : Nat) (st : Option Bool) : (w.linkEvent n i st).K = (w.linkChange n i st).K := rfl
+theorem flush_K (w : W) : w.flush.K = w.K := rfl
+
 theorem stepOp_nodup (w : W) (o : Op) (hn : w.K.keys.Nodup) : (w.stepOp o).1.K.keys.Nodup := by
   cases o with
-  | iface n i st => exact ifaceEvent_nodup w n i st hn
+  | iface n i st => exact linkChange_nodup w n i st hn
+  | link n i st => exact linkChange_nodup w n i st hn
+  | flush => exact hn
   | kroute c r => exact keys_set_nodup _ _ _ hn
   | kdel c => exact keys_erase_nodup _ _ hn
   | set cls ifc ws => exact hn
